@@ -395,12 +395,158 @@ def table(ctx):
             ctx.oracle(t == "unchanged", r, {"why": "_diff_entry(e, e) is not unchanged", "got": t})
 
 
+# ------------------------------------------------------------------ index/save.py and the unchanged-sub-tree shortcut
+
+
+def save_specs(rng, files, explicit=0.7):
+    """an index as `build()` + `md5()` leave it: hashed file entries, some directories explicit (without a hash yet)"""
+    from dvc_data.hashfile.hash_info import HashInfo
+    from dvc_data.hashfile.meta import Meta
+
+    specs = []
+    for d in sorted({k[:i] for k in files for i in range(1, len(k))}):
+        if rng.random() < explicit:
+            specs.append((d, Meta(isdir=True), None))
+    for k, c in files.items():
+        r = rng.random()
+        hi = None if r < 0.08 else HashInfo("md5", md5hex(c))
+        r = rng.random()
+        meta = None if r < 0.15 else Meta(size=len(c), isexec=rng.random() < 0.2) if r < 0.9 else Meta()
+        specs.append((k, meta, hi))
+    rng.shuffle(specs)
+    return specs
+
+
+def real_save(ctx, specs, files):
+    """run the real save() on an index whose data storage is a directory holding the files -> (index, store path)"""
+    import copy
+
+    from dvc_data.index.index import DataIndex, FileStorage
+    from dvc_data.index.save import save
+
+    from .stores import fs_local, make_odb
+
+    root = ctx.mkdtemp()
+    gen.materialize(root + "/ws", files)
+    odb = make_odb(root + "/odb", local=bool(ctx.rng.randrange(2)))
+    idx = DataIndex()
+    for k, m, h in specs:
+        isdir = m is not None and m.isdir
+        idx[k] = mk_entry(k, copy.copy(m) if m is not None else None, copy.copy(h) if h is not None else None, loaded=True if isdir else None)
+    idx.storage_map.add_data(FileStorage(key=(), fs=fs_local(), path=root + "/ws"))
+    save(idx, odb=odb)
+    return idx, root + "/odb"
+
+
+def entry_json(e):
+    return {"meta": meta_to_json(e.meta), "hi": hi_to_json(e.hash_info), "loaded": e.loaded}
+
+
+def norm_entry(j):
+    """the fields save() is responsible for (the driver prints every Meta field)"""
+    m = j.get("meta")
+    if m is not None:
+        m = {k: m.get(k) for k in ("isdir", "size", "nfiles", "isexec", "md5")}
+        m["isdir"] = bool(m["isdir"])
+        m["isexec"] = bool(m["isexec"])
+    h = j.get("hi")
+    if h is not None:
+        h = {"name": h.get("name"), "value": h.get("value")}
+    return {"meta": m, "hi": h}
+
+
+def check_save(ctx, n):
+    """IndexSave.saveDirs ~ index.save(): every directory entry gets the identifier of the listing of the files below it
+    (and that listing is what lands in the store under that name); then, for two saved indexes, the hash-only diff -
+    shortcut included - reports exactly the file keys whose hashes differ"""
+    from .stores import read_obj
+
+    rng = ctx.rng
+    for i in range(n):
+        files = gen.rand_tree(rng, max_files=8, allow_odd=False)
+        if not files:
+            continue
+        specs = save_specs(rng, files, rng.choice([0.3, 0.7, 1.0]))
+        case = {"index_save": [ent_json(x) for x in specs]}
+        ndirs = sum(1 for k, m, h in specs if m is not None and m.isdir)
+        ctx.case(case, nontrivial=ndirs > 0)
+        ctx.count("save: explicit_dirs=%d" % min(ndirs, 4))
+        kind, got = safe_call(lambda: real_save(ctx, specs, files))
+        ans = ctx.driver.ask({"op": "index_save", "index": case["index_save"]})
+        if kind != "ok":
+            ctx.corr("IndexSave.saveDirs~index.save()", case, {"err": got}, "ok" if "entries" in ans else ans)
+            continue
+        idx, store = got
+        impl = sorted(([list(k), norm_entry(entry_json(e))] for k, e in idx.iteritems()), key=lambda x: x[0])
+        model = sorted(([e["key"], norm_entry(e["entry"])] for e in ans.get("entries", [])), key=lambda x: x[0])
+        ctx.corr("IndexSave.saveDirs~index.save()", case, impl, model)
+        ctx.oracle(ans.get("idempotent") is True, case, {"why": "model: saving twice differs"})
+        # the listing filed under each directory identifier is the listing of the files below the directory
+        for t in ans.get("trees", []):
+            e = idx[tuple(t["key"])]
+            oid = e.hash_info.value if e.hash_info else None
+            raw = safe_call(lambda: read_obj(store, oid).decode())[1] if oid else None
+            ctx.corr("IndexSave.treeBelow~build_tree (object bytes)", case, raw, t["bytes"])
+            ctx.oracle(oid is not None and raw is not None and md5hex(raw.encode()) + ".dir" == oid, case,
+                       {"why": "save(): a directory entry's identifier is not the digest of the listing stored under it", "key": t["key"], "oid": oid})
+        from .util import list_store
+
+        have = set(list_store(store))
+        want = set(ans.get("file_oids", [])) | {idx[tuple(t["key"])].hash_info.value for t in ans.get("trees", [])}
+        ctx.corr("IndexSave.fileOids~save() (store contents)", case, sorted(have), sorted(want))
+        # a second saved index derived from the first: hash-only diff, shortcut included, hides no file change
+        files2 = dict(files)
+        for k in list(files2):
+            r = rng.random()
+            if r < 0.2:
+                files2[k] = files2[k] + b"?"
+            elif r < 0.28:
+                del files2[k]
+        if rng.random() < 0.4:
+            files2[(gen.rand_name(rng, gen.NAME_POOL[:7]) + "9",)] = b"fresh"
+        by_key = {k: (m, h) for k, m, h in specs}
+        specs2 = []
+        for k, m, h in specs:
+            if m is not None and m.isdir:
+                if any(f[: len(k)] == k for f in files2):
+                    # update(new, old) carries the old directory identifier over (equal metadata); save() must replace it
+                    specs2.append((k, m, idx[k].hash_info if rng.random() < 0.5 else None))
+            elif k in files2:
+                from dvc_data.hashfile.hash_info import HashInfo
+
+                specs2.append((k, m, None if h is None else HashInfo("md5", md5hex(files2[k]))))
+        for k in files2:
+            if k not in by_key:
+                from dvc_data.hashfile.hash_info import HashInfo
+                from dvc_data.hashfile.meta import Meta
+
+                specs2.append((k, Meta(size=len(files2[k])), HashInfo("md5", md5hex(files2[k]))))
+        kind2, got2 = safe_call(lambda: real_save(ctx, specs2, files2))
+        if kind2 != "ok":
+            continue
+        idx2, _ = got2
+        from dvc_data.index.diff import diff
+
+        for with_unchanged in (False, True):
+            ch = [(c.typ, c.key) for c in diff(idx, idx2, hash_only=True, with_unchanged=with_unchanged)]
+            reported = {k for t, k in ch if t != "unchanged"}
+            for k in set(files) | set(files2):
+                eo = by_key.get(k)
+                oh = truthy(eo[1]) if (eo and k in files) else None
+                e2 = next(((m, h) for kk, m, h in specs2 if kk == k), None)
+                nh = truthy(e2[1]) if e2 else None
+                ctx.oracle((oh != nh) == (k in reported), case,
+                           {"why": "hash-only diff of two saved indexes %s a file change" % ("hides" if oh != nh else "invents"),
+                            "key": list(k), "with_unchanged": with_unchanged, "second": [ent_json(x) for x in specs2]})
+        ctx.count("save: diffed pair")
+
+
 def run(ctx):
     ctx.rule = (
         "exhaustive _diff_entry table (26 entry shapes per side x 8 option combinations); pairs of well-formed indexes derived from "
         "one another (modify/delete/add, file<->directory kind changes at any depth, implicit or explicit directory entries with "
         "consistent hashes, missing hash/meta, one side None or empty) x random option combinations; rename workloads with duplicate "
-        "hashes; the same pairs behind filtered views (filter on the first key part, accepting or rejecting the root key) against the diff of the restricted indexes. non-trivial = both sides non-empty; distinct = sha256 of the case"
+        "hashes; the same pairs behind filtered views (filter on the first key part, accepting or rejecting the root key) against the diff of the restricted indexes; index.save() on generated indexes against IndexSave.saveDirs (entries, stored listing bytes) and the hash-only diff of two saved indexes against the flat comparison of their file hashes. non-trivial = both sides non-empty; distinct = sha256 of the case"
     )
     ctx.assumptions = ["indexes are well-formed: every proper prefix of an entry key is absent or a directory entry",
                        "directory hashes are consistent with their children (for the unchanged-subtree shortcut)"]
@@ -410,6 +556,7 @@ def run(ctx):
     pairs += [rename_workload(ctx.rng) for _ in range(ctx.n(200, 2500))]
     check_pairs(ctx, pairs)
     check_views(ctx, pairs[: ctx.n(250, 3000)])
+    check_save(ctx, ctx.n(60, 800))
 
 
 def search(ctx):
